@@ -172,7 +172,7 @@ CLOCK_INSTANTS = [(2020, 1, 31, 43200), (2020, 3, 31, 0), (2027, 1, 31, 1), (202
 CONSOLE_SCRIPT = {"path": None}      # written once, before any worker thread forks (avoids ETXTBSY)
 
 
-def run_entry(entry, argv, workdir, env_extra=None):
+def run_entry(entry, argv, workdir, env_extra=None, tty=False):
     env = {k: v for k, v in os.environ.items() if not k.startswith("PYTHON")}
     env.update({"PYTHONPATH": REPO, "PYTHONIOENCODING": "utf-8", "PYTHONDONTWRITEBYTECODE": "1"})
     if env_extra:
@@ -197,8 +197,43 @@ def run_entry(entry, argv, workdir, env_extra=None):
         cmd = [sys.executable, "-W", "ignore", "-m", "conda_content_trust"] + argv
     else:
         cmd = [sys.executable, "-W", "ignore", "-m", "conda_content_trust.cli"] + argv
+    if tty:
+        return run_on_pty(cmd, workdir, env)
     p = subprocess.run(cmd, cwd=workdir, env=env, capture_output=True, text=True, timeout=120)
     return p.returncode, p.stdout + p.stderr
+
+
+def run_on_pty(cmd, workdir, env):
+    """The command with stdout and stderr attached to a pseudo-terminal, as when an operator runs it by hand."""
+    import pty
+    import select
+    master, slave = pty.openpty()
+    try:
+        p = subprocess.Popen(cmd, cwd=workdir, env=dict(env, TERM="xterm"), stdin=subprocess.DEVNULL, stdout=slave, stderr=slave, close_fds=True)
+    finally:
+        os.close(slave)
+    chunks = []
+    import time
+    deadline = time.time() + 120
+    while time.time() < deadline:
+        rl, _, _ = select.select([master], [], [], 0.2)
+        if rl:
+            try:
+                data = os.read(master, 65536)
+            except OSError:
+                break
+            if not data:
+                break
+            chunks.append(data)
+        elif p.poll() is not None:
+            break
+    try:
+        rc = p.wait(timeout=10)
+    except subprocess.TimeoutExpired:
+        p.kill()
+        rc = p.wait()
+    os.close(master)
+    return rc, b"".join(chunks).decode("utf-8", "replace")
 
 
 def check(run):
@@ -264,7 +299,10 @@ def check(run):
                 y, mo, d, sec = r2.choice(CLOCK_INSTANTS)
                 env_clock = {"CCTVERIF_HARNESS": harness_dir, "PYTHONPATH_PREFIX": FAKECLOCK_SITE,
                              "CCTVERIF_FAKE_NOW": "%d:%s" % (calendar.timegm((y, mo, d, 0, 0, 0)) + sec, r2.choice(["0", "0", "0.7"]))}
-            status, text = run_entry(entry, ["verify-metadata", tp, up], wd, env_clock)
+            on_tty = entry != "in_process" and r2.random() < 0.35          # ... and a third of them on a terminal instead of a pipe
+            status, text = run_entry(entry, ["verify-metadata", tp, up], wd, env_clock, tty=on_tty)
+            if on_tty:
+                entry = entry + " (on a terminal)"
             if env_clock:
                 entry = entry + " (clock at %04d-%02d-%02d)" % (y, mo, d)
             if (status == 0) != exp["zero"]:
